@@ -148,7 +148,7 @@ type c07TCfg struct {
 }
 
 func c07TransformCfgs() []c07TCfg {
-	return []c07TCfg{
+	cfgs := []c07TCfg{
 		{"default", api.TransformOptions{}},
 		{"minify-ws", api.TransformOptions{MinifyWhitespace: true}},
 		{"minify-ids", api.TransformOptions{MinifyIdentifiers: true}},
@@ -162,6 +162,17 @@ func c07TransformCfgs() []c07TCfg {
 		{"banner-footer", api.TransformOptions{Banner: "/* b1 é \U0001F600 */\n/* b2 */", Footer: "/* f */"}},
 		{"no-content", api.TransformOptions{SourcesContent: api.SourcesContentExclude, MinifyWhitespace: true}},
 	}
+	// banner/footer is an independent dimension: every configuration also runs with a two-line banner (the offset of
+	// the first mapping depends on banner x minify-whitespace x format wrapper x directive handling)
+	n := len(cfgs)
+	for _, c := range cfgs[:n] {
+		if c.o.Banner == "" {
+			c.name += "+banner"
+			c.o.Banner, c.o.Footer = "/* b1 é \U0001F600 */\n/* b2 */", "/* f */"
+			cfgs = append(cfgs, c)
+		}
+	}
+	return cfgs
 }
 
 type c07Run struct {
@@ -492,6 +503,15 @@ func c07Bundles(c *Check, r *c07Run, quick bool) {
 		{"bundle-source-root", api.BuildOptions{Format: api.FormatESModule, SourceRoot: "https://example.com/root"}},
 		{"bundle-no-content", api.BuildOptions{Format: api.FormatESModule, SourcesContent: api.SourcesContentExclude, MinifyWhitespace: true}},
 		{"split-es2015-minify", api.BuildOptions{Format: api.FormatESModule, Splitting: true, Target: api.ES2015, MinifyWhitespace: true, MinifySyntax: true}},
+	}
+	// banner/footer as an independent dimension (see c07TransformCfgs)
+	for _, bc := range cfgs[:len(cfgs)] {
+		if bc.o.Banner == nil {
+			bc.name += "+banner"
+			bc.o.Banner = map[string]string{"js": "/* banner\n line2 é \U0001F600 */", "css": "/* cssbanner\n l2 */"}
+			bc.o.Footer = map[string]string{"js": "/* footer */", "css": "/* f */"}
+			cfgs = append(cfgs, bc)
+		}
 	}
 	modes := []api.SourceMap{api.SourceMapLinked, api.SourceMapExternal, api.SourceMapInline, api.SourceMapInlineAndExternal}
 	modeName := map[api.SourceMap]string{api.SourceMapLinked: "linked", api.SourceMapExternal: "external", api.SourceMapInline: "inline", api.SourceMapInlineAndExternal: "both"}
